@@ -4,6 +4,8 @@ package main
 
 import (
 	"fmt"
+	"os"
+	"sort"
 	"go/token"
 	"go/types"
 	"strings"
@@ -89,6 +91,12 @@ func (ft *FuncTr) call(st *State, at *Term, in ssa.Instruction, c *ssa.CallCommo
 		cname = calleeName(sc)
 	} else if c.IsInvoke() {
 		cname = c.Method.Name()
+	} else if b, ok := c.Value.(*ssa.Builtin); ok {
+		cname = b.Name()
+	}
+	ft.curCallNth = ft.callOrdinal(in, cname)
+	if cname != "" && os.Getenv("GOVC_CALLS") != "" {
+		fmt.Fprintf(os.Stderr, "call %s#%d at %s\n", lastName(cname), ft.curCallNth, ft.posStr(in.Pos()))
 	}
 	if err := ft.anchored(st, nil, at, in, cname, true); err != nil {
 		return Val{}, err
@@ -116,7 +124,16 @@ func (ft *FuncTr) anchored(st *State, preCall *State, at *Term, in ssa.Instructi
 		if a.Before != before {
 			continue
 		}
-		if !(cname == a.Callee || strings.HasSuffix(cname, "."+a.Callee) || strings.HasSuffix(cname, "/"+a.Callee)) {
+		want := a.Callee
+		nth := 0
+		if k := strings.LastIndex(want, "#"); k > 0 {
+			fmt.Sscanf(want[k+1:], "%d", &nth)
+			want = want[:k]
+		}
+		if !(cname == want || strings.HasSuffix(cname, "."+want) || strings.HasSuffix(cname, "/"+want)) {
+			continue
+		}
+		if nth > 0 && ft.curCallNth != nth {
 			continue
 		}
 		env := ft.newEnv(st)
@@ -322,6 +339,7 @@ func (ft *FuncTr) applyContract(st *State, at *Term, in ssa.Instruction, name st
 	}
 	for _, n := range ms.names() {
 		ft.h.noteHavoc(st.heap[n], ft.h.nextID(st))
+			ft.h.noteMapArr(st, n)
 	}
 	// results
 	res := fsig.Results()
@@ -739,4 +757,43 @@ func (ft *FuncTr) varargsElems(st *State, arg ssa.Value, m *Term) []*Term {
 		out = append(out, Select(m, PElem(pv.T, IntLit(i))))
 	}
 	return out
+}
+
+// callOrdinal: the 1-based rank, in source order, of call instruction `in` among the calls of this
+// function with the same short callee name (for `assert after f#n`).
+func (ft *FuncTr) callOrdinal(in ssa.Instruction, cname string) int {
+	if cname == "" {
+		return 0
+	}
+	if ft.callOrd == nil {
+		ft.callOrd = map[ssa.Instruction]int{}
+		byName := map[string][]ssa.Instruction{}
+		for _, b := range ft.fn.Blocks {
+			for _, i2 := range b.Instrs {
+				ci, ok := i2.(ssa.CallInstruction)
+				if !ok {
+					continue
+				}
+				c := ci.Common()
+				n := ""
+				if sc := c.StaticCallee(); sc != nil {
+					n = calleeName(sc)
+				} else if c.IsInvoke() {
+					n = c.Method.Name()
+				} else if bi, ok := c.Value.(*ssa.Builtin); ok {
+					n = bi.Name()
+				}
+				if n != "" {
+					byName[lastName(n)] = append(byName[lastName(n)], i2)
+				}
+			}
+		}
+		for _, l := range byName {
+			sort.SliceStable(l, func(x, y int) bool { return l[x].Pos() < l[y].Pos() })
+			for k, i2 := range l {
+				ft.callOrd[i2] = k + 1
+			}
+		}
+	}
+	return ft.callOrd[in]
 }
